@@ -96,8 +96,13 @@ func (e *emu) setHold(h bool) { e.mu.Lock(); e.hold = h; e.mu.Unlock() }
 func (e *emu) held() int      { e.mu.Lock(); defer e.mu.Unlock(); return len(e.heldQ) }
 
 // release answers n held cursor queries and appends extra bytes in the same write.
-func (e *emu) release(n int, extra []byte) {
+func (e *emu) release(n int, extra []byte) { e.releaseOpt(n, extra, false) }
+
+func (e *emu) releaseOpt(n int, extra []byte, unhold bool) {
 	e.mu.Lock()
+	if unhold {
+		e.hold = false
+	}
 	var out []byte
 	for i := 0; i < n && len(e.heldQ) > 0; i++ {
 		out = append(out, e.heldQ[0]...)
